@@ -212,6 +212,14 @@ def run(spec, out):
             continue
         call("warm")
         call("other-factory-same-signature")
+        # a factory of a DIFFERENT signature class on the warm cache: the keywords it receives must follow its
+        # own signature, not the one the cached code was traced for
+        saved_kinds = dict(kinds)
+        for p_ in positions:
+            kinds[p_] = rng.choice([k_ for k_ in KINDS if k_ != saved_kinds[p_]])
+        call("other-signature-warm")
+        kinds.update(saved_kinds)
+        call("original-signature-again")
         cache.cache_clear()
         call("cold-again")
         # graph=True: never invoked
